@@ -117,6 +117,15 @@ def showOpts (full : Bool) (o : Option (List Opt)) : String :=
   | some [] => "-"
   | some l => ",".intercalate (l.map (showOpt full))
 
+/-- a client reply's options as a sorted list (the order in which the Msg path
+and the byte path append cookie / NSID / extended error differs and is not
+this property's concern). -/
+def showOptSet (o : Option (List Opt)) : String :=
+  match o with
+  | none => "noopt"
+  | some [] => "-"
+  | some l => ",".intercalate ((l.map (showOpt false)).mergeSort (fun a b => decide (a < b) || a == b))
+
 def showPrefix (p : Prefix) : String :=
   let f := match p.fam with | .v4 => "4" | .v6 => "6"
   s!"{f}:{hexOfBytes (natBytes (p.fam.width / 8) p.addr)}/{p.bits}"
@@ -214,7 +223,7 @@ def qCore (st : State) (proto : String) (client : Option Addr) (qid : Nat) (cd :
     let st := if prefetchEnqueues (st.pf > 0) e (st.aged.contains e.ans) && !st.claimed.contains e.ans then
         { st with claimed := e.ans :: st.claimed, pfq := st.pfq ++ [item] }
       else st
-    (st, s!"up=hit ans={e.ans} ropt={showOpts false ropt} st=- ttl=- pf=-")
+    (st, s!"up=hit ans={e.ans} ropt={showOptSet ropt} st=- ttl=- pf=-")
   | none =>
     -- after the exact ladder: the shared RFC 8020 cut index, unless this tree bypasses it
     if consultsCut f.view && (match zone with | some k => st.cuts.contains k | none => false) then
@@ -226,7 +235,7 @@ def qCore (st : State) (proto : String) (client : Option Addr) (qid : Nat) (cd :
       | none => "shared"
     let hasEde := (uopts.getD []).any (fun o => o.code == 15)
     ({ st with entries := cacheStep encKey st.ppol st.cap st.entries (.answer f.cs uopts qid cd ttl ans kind), edeAns := if hasEde then ans :: st.edeAns else st.edeAns },
-      s!"up={showOpts true (some f.fwd)} ans={ans} ropt={showOpts false ropt} st={stS} ttl={e.ttl} pf={boolStr (prefetchEligible e)}")
+      s!"up={showOpts true (some f.fwd)} ans={ans} ropt={showOptSet ropt} st={stS} ttl={e.ttl} pf={boolStr (prefetchEligible e)}")
 
 def step (st : State) (w : List String) : State × String :=
   match w with
@@ -288,10 +297,16 @@ def step (st : State) (w : List String) : State × String :=
     match parseClient c false, parseOpts opts with
     | some c, some o => (st, showPrefix? (requestScope st.pol c o))
     | _, _ => (st, "bad-op")
-  | ["pipe", "new", en, f4, f6, m4, m6, nets, cap, prefetch] =>
+  | "pipe" :: "new" :: en :: f4 :: f6 :: m4 :: m6 :: nets :: cap :: prefetch :: _cachesize =>
     match buildFrom en f4 f6 m4 m6 nets, cap.toNat? with
     | some r, some cap =>
-      let pfv : Nat := prefetch.toNat?.getD 0
+      -- `cache.New`: a prefetch percentage above 90 fails validation and falls back to 0,
+      -- 1..9 is raised to 10; the cache size never matters to any of this — in
+      -- particular not to the scoped TTL limit, which every fallback must keep
+      let pf0 : Nat := prefetch.toNat?.getD 0
+      let knobs := cacheKnobs ((_cachesize.head?.bind String.toNat?).getD 1024) pf0 cap
+      let pfv : Nat := knobs.prefetch
+      let cap : Nat := knobs.ecsMaxTTL
       let st' : State := { pol := st.pol, ppol := r.policy, cap := cap, pf := pfv }
       -- `edns.buildECSPolicy` and `cache.buildCacheECSPolicy` are the same function of the config
       let show1 (p : Option Policy) : String := match p with
